@@ -52,6 +52,8 @@ func splitFunc(data []byte, atEOF bool) (advance int, token []byte, err error) {
 type Parser struct {
 	inputScanner *bufio.Scanner
 	fieldScanner *FieldParser
+	// skippedBlankLines is set when blank lines preceded the first chunk of input.
+	skippedBlankLines bool
 }
 
 // Next parses a single field from the reader. It returns false when there are no more fields to parse.
@@ -67,9 +69,10 @@ func (r *Parser) Next(f *Field) bool {
 			return false
 		}
 
-		if r.fieldScanner.Started() {
+		if r.fieldScanner.Started() || r.skippedBlankLines {
 			// If scanning was started, then an event was already processed at this point and the BOM was
 			// already removed, if it existed. We don't need to remove it anymore, so disable the option.
+			// The same applies if blank lines were skipped: the chunk is not at the start of the stream.
 			r.fieldScanner.RemoveBOM(false)
 		}
 
@@ -114,11 +117,21 @@ func (r *Parser) Buffer(buf []byte, maxSize int) {
 
 // New returns a Parser that extracts fields from a reader.
 func New(r io.Reader) *Parser {
-	sc := bufio.NewScanner(r)
-	sc.Split(splitFunc)
-
 	fsc := NewFieldParser("")
 	fsc.RemoveBOM(true)
 
-	return &Parser{inputScanner: sc, fieldScanner: fsc}
+	p := &Parser{fieldScanner: fsc}
+
+	sc := bufio.NewScanner(r)
+	sc.Split(func(data []byte, atEOF bool) (int, []byte, error) {
+		advance, token, err := splitFunc(data, atEOF)
+		if token != nil && advance > len(token) {
+			// Leading blank lines are not part of the token.
+			p.skippedBlankLines = true
+		}
+		return advance, token, err
+	})
+	p.inputScanner = sc
+
+	return p
 }
